@@ -148,6 +148,8 @@ class StepMonitor:
         self.failpoint_fired_at: str | None = None
         self.cpu_budget = None
         self.cpu0 = 0.0
+        self.mem_budget = None
+        self.mem_probe = None
         self._mon = sys.monitoring
         self._active = False
         self._coverage = coverage
@@ -179,6 +181,8 @@ class StepMonitor:
         self.failpoint = None
         self.cpu_budget = None
         self.cpu0 = time.thread_time()
+        self.mem_budget = None
+        self.mem_probe = None
 
     def arm_failpoint(self, after_steps: int, exc: BaseException, only_in: str | None = None) -> None:
         """Source-free failpoint: raise `exc` out of the `after_steps`-th line event from now (optionally only counting
@@ -187,6 +191,14 @@ class StepMonitor:
 
     def _on_line(self, code, line):
         self.steps += 1
+        if self.mem_budget is not None and not self.steps & 0x7 and self.mem_probe is not None and self.mem_probe() > self.mem_budget:
+            # third in-flight clock: traced memory. A case that allocates without end (an error message that doubles per
+            # recursion level) would otherwise take the whole worker down and decide nothing.
+            if self.tripped_stack is None:
+                self.tripped_stack = "".join(traceback.format_stack(sys._getframe(1), limit=12))
+            b = self.mem_budget
+            self.mem_budget = None
+            raise StepBudgetExceeded(f"more than {b} bytes of traced memory in one case")
         if self.cpu_budget is not None and not self.steps & 0x3FF and time.thread_time() - self.cpu0 > self.cpu_budget:
             # a second, in-flight clock: thread CPU time (load independent). It catches cases that make little monitored
             # progress per unit of work (each step opening files, parsing in C) and would outlast the wall-clock watchdog.
